@@ -31,7 +31,7 @@ from vlib import log
 
 PROP = "C20"
 LEVEL = "fault_enumeration"
-CLI_TARGET = os.path.join(vlib.VERIF, "target-cli")
+CLI_TARGET = os.environ.get("VERIF_CLI_TARGET") or os.path.join(vlib.VERIF, "target-cli")   # override: private mutant builds
 RINK = os.path.join(CLI_TARGET, "debug", "rink")
 SNAPSHOT = os.path.join(vlib.REPO, "core", "tests", "currency.snapshot.json")
 OLD_RATE, NEW_RATE = "1.0852", "1.2345"
